@@ -219,3 +219,91 @@ func BuildShared[K any](k *kinds.Kind[K], cfg *Config, res *ev.Result, name stri
 	s.RunHistory(r, nOps, poolN)
 	return &shared[K]{s: s}
 }
+
+// sweepStepper walks one 256-way fan-out family up and down through every
+// size-class threshold (several times), one operation per Step.
+type sweepStepper[K any] struct {
+	s     *Session[K]
+	r     *rng.R
+	fam   []K
+	ops   []closedOp
+	pos   int
+	chain *ev.Hasher
+	dumps bool
+}
+
+// NewSweepStepper: the operation list is a pure function of (seed, name).
+func NewSweepStepper[K any](k *kinds.Kind[K], cfg *Config, res *ev.Result, name string, seed uint64, dumps bool) Stepper {
+	r := unitRng(seed, name)
+	st := &sweepStepper[K]{s: NewSession(k, cfg, res, name), r: r, chain: ev.NewHasher(), dumps: dumps}
+	st.s.every = 4
+	if k.Fan == nil {
+		return st
+	}
+	st.fam = k.Fan(r)
+	n := len(st.fam)
+	rng.Shuffle(r, st.fam)
+	targets := []int{5, 3, 17, 12, 20, 11, 49, 37, 52, 36, 13, 11, 4, 17, 49, n, 38, 36, 12, 3, 18, 50, 12, 2}
+	if r.Chance(1, 2) {
+		targets = []int{17, 12, 17, 12, 49, 37, 49, 37, 13, 3, 5, 3, 17, 50, 36, 12, 3, 49, 12, 2}
+	}
+	in := make([]bool, n)
+	var live []int
+	for _, tg := range targets {
+		tg = min(tg, n)
+		for len(live) < tg {
+			j := r.Intn(n)
+			for in[j] {
+				j = (j + 1) % n
+			}
+			in[j] = true
+			live = append(live, j)
+			st.ops = append(st.ops, closedOp{del: false, idx: j})
+		}
+		for len(live) > tg {
+			i := r.Intn(len(live))
+			if r.Chance(1, 3) {
+				i = 0 // oldest: frees a low slot of a 48-slot node
+			}
+			j := live[i]
+			live = append(live[:i], live[i+1:]...)
+			in[j] = false
+			st.ops = append(st.ops, closedOp{del: true, idx: j})
+		}
+	}
+	return st
+}
+
+func (st *sweepStepper[K]) Name() string  { return st.s.Unit }
+func (st *sweepStepper[K]) Dead() bool    { return st.s.Dead }
+func (st *sweepStepper[K]) Steps() int    { return st.pos }
+func (st *sweepStepper[K]) Len() int      { return st.s.M.Len() }
+func (st *sweepStepper[K]) Chain() uint64 { return st.chain.Sum() }
+
+func (st *sweepStepper[K]) Step() bool {
+	if st.pos >= len(st.ops) || st.s.Dead {
+		return false
+	}
+	op := st.ops[st.pos]
+	st.pos++
+	if op.del {
+		st.s.Delete(st.fam[op.idx])
+	} else {
+		st.s.Insert(st.fam[op.idx])
+	}
+	if st.s.Dead {
+		return false
+	}
+	if st.pos%st.s.every == 0 {
+		st.s.After(st.r)
+	}
+	st.chain.U64(st.s.Trace())
+	if st.dumps {
+		st.chain.U64(canonWithClasses(st.s.dump()))
+	}
+	return !st.s.Dead
+}
+
+func (st *sweepStepper[K]) Addrs() map[uintptr]int {
+	return (&stepper[K]{s: st.s}).Addrs()
+}
